@@ -241,6 +241,11 @@ type livePhase struct {
 	IdleMs  int  `json:"idle_ms"`
 	Burst   int  `json:"burst"`
 	FromSrv bool `json:"from_srv"`
+	// LoseAcks: at the start of the idle period the next LoseAcks ACK packets
+	// towards the client are lost. The peer is still alive and answers the
+	// retransmitted packet (with a NACK for the next sequence number it
+	// expects) well within the pong timeout: any packet is a sign of life.
+	LoseAcks int `json:"lose_acks,omitempty"`
 }
 
 func genC13Live(t *rapid.T) *liveCase {
@@ -292,9 +297,24 @@ func genC13Live(t *rapid.T) *liveCase {
 		if idle < 0 {
 			idle = 0
 		}
-		c.Phases = append(c.Phases, livePhase{IdleMs: idle,
+		ph := livePhase{IdleMs: idle,
 			Burst:   rapid.SampledFrom([]int{0, 1, 1, 2, c.N, c.N + 2}).Draw(t, "burst"),
-			FromSrv: rapid.Bool().Draw(t, "from_srv")})
+			FromSrv: rapid.Bool().Draw(t, "from_srv")}
+		// One lost ACK: only where the retransmission and its answer still
+		// fit into the client's pong timeout with a clear margin, i.e. the
+		// peer does answer in time.
+		// ... and the peer's NACK back-off (no second NACK for the same
+		// sequence number within two of its resend timeouts) must have run
+		// out by the time the ping goes out, otherwise the live peer stays
+		// silent by design and the closure is its own doing (seen on the
+		// unchanged tree: one lost ACK of a ping then closes an idle
+		// connection; C13 does not promise otherwise).
+		if c.Client.Static && c.Server.Static && c.Client.ResendMs+rtt+100 < c.Client.PongMs && idle >= c.Client.PingMs &&
+			c.Client.PingMs > 2*c.Server.ResendMs+500 &&
+			rapid.IntRange(0, 2).Draw(t, "lose_ack") == 0 {
+			ph.LoseAcks = 1
+		}
+		c.Phases = append(c.Phases, ph)
 	}
 	return c
 }
@@ -314,6 +334,9 @@ func runC13Live(t *testing.T, c *liveCase) (violation string, tail []string, idl
 		env.StartReceiver(1)
 		sent := [2]int{}
 		for pi, ph := range c.Phases {
+			if ph.LoseAcks > 0 {
+				env.S2C.DropNext("ACK", ph.LoseAcks)
+			}
 			time.Sleep(ms(ph.IdleMs))
 			idleTotal += ms(ph.IdleMs)
 			if env.AnyFailure() {
